@@ -732,6 +732,24 @@ theorem openlist_overflow_list_best (cfg : OpenListCfg) (votes : Votes) (n : Nat
       exact lt_of_le_of_ne hle (fun e => hne ((List.idxOf_inj haJ).mp e))
   · cases h
 
+/-- ... and the seated jumpers come by non-increasing votes, those with equal votes in list order -/
+theorem openlist_overflow_list_order (cfg : OpenListCfg) (votes : Votes) (n : Nat) (clist : List Cand) (thr : Rat)
+    (r : List Cand) (hthr : jumpThreshold cfg (sumVals votes) n = some thr)
+    (hover : n < (jumpers cfg.acceptEqual thr votes).length) (hlp : cfg.listPrecedence = true)
+    (h : thresholdOpenList cfg votes n clist = .ok r) :
+    r.Pairwise (fun a b => getD votes b 0 ≤ getD votes a 0 ∧
+      (getD votes a 0 = getD votes b 0 → clist.idxOf a ≤ clist.idxOf b)) := by
+  rw [openlist_overflow_by_list cfg votes n clist thr hthr hover hlp] at h
+  split at h
+  · have hr : r = _ := (Except.ok.inj h).symm
+    subst hr
+    have hs := (sortBy_sorted (fun a => clist.idxOf a) (fun a b => decide (clist.idxOf a < clist.idxOf b))
+      (by intro a b; simp) (jumpers cfg.acceptEqual thr votes)).sublist (List.take_sublist n _)
+    have := sortBy_stable (fun a => - getD votes a 0) (fun a b => decide (getD votes b 0 < getD votes a 0))
+      (by intro a b; simp) (fun a b => clist.idxOf a ≤ clist.idxOf b) _ hs
+    exact this.imp (fun hab => ⟨neg_le_neg_iff.mp hab.1, fun e => hab.2 (by rw [e])⟩)
+  · cases h
+
 /-! ## ListOrderTieBreaker / Tie.break_by_list -/
 
 /-- **list_tiebreak_only_tied (break_by_list).**  Breaking ties by the list changes nothing but the tie places:
@@ -832,6 +850,90 @@ theorem list_tiebreak_plurality_tie (votes : Votes) (n : Nat) (clist : List Cand
     simp [List.map_map, Function.comp_def]
   rw [hmap, break_by_list_nbest _ _ _ clist hall hk]
   rfl
+
+/-- without a tie in the inner result the wrapper returns it unchanged (the list plays no role) -/
+theorem list_tiebreak_no_tie (inner : Votes → Nat → Except Err (List Slot)) (votes : Votes) (n : Nat)
+    (clist : List Cand) (res : List Slot) (hi : inner votes n = .ok res) (hno : res.any Slot.isTie = false) :
+    listOrderTieBreaker inner votes n clist = .ok res := by
+  unfold listOrderTieBreaker
+  simp [hi, bind, Except.bind, hno, pure, Except.pure]
+
+/-- Plurality with list tie-break when the level set fits: exactly the plurality result of VL.C09.getNBest_fits -/
+theorem list_tiebreak_plurality_fits (votes : Votes) (n : Nat) (clist : List Cand)
+    (h1 : 1 ≤ n) (hlen : n < votes.length) (t : Rat) (ht : IsNth votes n t) (hfit : cntGe votes t ≤ n) :
+    listOrderTieBreaker (fun v k => .ok (plurality v k)) votes n clist =
+      .ok ((aboveSorted votes t).map (fun p => Slot.cand p.1) ++ (level votes t).map Slot.cand) := by
+  have hres := VL.C09.getNBest_fits votes n h1 hlen t ht hfit
+  apply list_tiebreak_no_tie _ _ _ _ _ (by simp only [plurality, hres])
+  rw [List.any_append]
+  simp [List.any_map, Function.comp_def, Slot.isTie]
+
+/-- QuotaSelector (policy 'select') with list tie-break, more candidates over the quota than seats and a boundary
+    tie among them: the list decides only among the candidates over the quota that are level with the n-th of them -/
+theorem list_tiebreak_quota_tie (quota : Rat → Nat → Rat) (eq : Bool) (votes : Votes) (n : Nat) (clist : List Cand)
+    (hwf : WF votes) (h1 : 1 ≤ n) (t : Rat)
+    (hlen : n < (votes.filter (fun p => passes eq (quota (sumVals votes) n) p.2)).length)
+    (ht : IsNth (votes.filter (fun p => passes eq (quota (sumVals votes) n) p.2)) n t)
+    (hno : n < cntGe (votes.filter (fun p => passes eq (quota (sumVals votes) n) p.2)) t)
+    (hall : ∀ c ∈ level (votes.filter (fun p => passes eq (quota (sumVals votes) n) p.2)) t, c ∈ clist) :
+    listOrderTieBreaker (quotaSelector quota eq .select) votes n clist =
+      .ok (((aboveSorted (votes.filter (fun p => passes eq (quota (sumVals votes) n) p.2)) t).map (·.1) ++
+        (sortByIndex clist (level (votes.filter (fun p => passes eq (quota (sumVals votes) n) p.2)) t)).take
+          (n - cntGt (votes.filter (fun p => passes eq (quota (sumVals votes) n) p.2)) t)).map Slot.cand) := by
+  have hwf' : WF (votes.filter (fun p => passes eq (quota (sumVals votes) n) p.2)) := by
+    unfold WF keys at hwf ⊢
+    exact hwf.sublist (List.filter_sublist.map _)
+  have := list_tiebreak_plurality_tie _ n clist hwf' h1 hlen t ht hno hall
+  unfold listOrderTieBreaker at this ⊢
+  rw [quota_selector_overflow_select]
+  exact this
+
+/-- **When the open-list evaluator refuses.**  The only exception is the ValueError of `list.index`: a threshold is
+    configured, more candidates jump than there are seats, the list takes precedence, and one of the jumpers is not
+    on the list.  In particular it always answers when everybody who received votes is on the list. -/
+theorem openlist_error_iff (cfg : OpenListCfg) (votes : Votes) (n : Nat) (clist : List Cand) (e : Err) :
+    thresholdOpenList cfg votes n clist = .error e ↔
+      e = .valueError ∧ ∃ thr, jumpThreshold cfg (sumVals votes) n = some thr ∧
+        n < (jumpers cfg.acceptEqual thr votes).length ∧ cfg.listPrecedence = true ∧
+        ∃ c, IsJumper cfg.acceptEqual thr votes c ∧ c ∉ clist := by
+  cases hthr : jumpThreshold cfg (sumVals votes) n with
+  | none =>
+    rw [openlist_no_threshold cfg votes n clist hthr]
+    constructor
+    · intro h; cases h
+    · rintro ⟨_, thr, h, _⟩; cases h
+  | some thr =>
+    by_cases hfit : (jumpers cfg.acceptEqual thr votes).length ≤ n
+    · rw [openlist_fill cfg votes n clist thr hthr hfit]
+      constructor
+      · intro h; cases h
+      · rintro ⟨_, thr', h, hov, _⟩
+        cases h; omega
+    · have hover : n < (jumpers cfg.acceptEqual thr votes).length := by omega
+      cases hlp : cfg.listPrecedence with
+      | false =>
+        rw [openlist_overflow_by_votes cfg votes n clist thr hthr hover hlp]
+        constructor
+        · intro h; cases h
+        · rintro ⟨_, _, _, _, h, _⟩; cases h
+      | true =>
+        rw [openlist_overflow_by_list cfg votes n clist thr hthr hover hlp]
+        by_cases hall : ∀ c ∈ jumpers cfg.acceptEqual thr votes, c ∈ clist
+        · rw [if_pos hall]
+          constructor
+          · intro h; cases h
+          · rintro ⟨_, thr', h, _, _, c, hc, hcn⟩
+            cases h
+            exact absurd (hall c ((mem_jumpers _ _ _ c).mpr hc)) hcn
+        · rw [if_neg hall]
+          constructor
+          · intro h
+            have he : e = .valueError := by cases h; rfl
+            refine ⟨he, thr, rfl, hover, rfl, ?_⟩
+            push Not at hall
+            obtain ⟨c, hc, hcn⟩ := hall
+            exact ⟨c, (mem_jumpers _ _ _ c).mp hc, hcn⟩
+          · rintro ⟨he, _⟩; rw [he]
 
 /-! ## non-vacuity: concrete boundary inputs meeting the hypotheses, and what the model answers on them -/
 
